@@ -31,68 +31,92 @@ var externals = make(map[string]externalFn)
 func init() {
 	// That little dot ۰ is an Arabic zero numeral (U+06F0), categories [Nd].
 	for k, v := range map[string]externalFn{
-		"(reflect.Value).Bool":         ext۰reflect۰Value۰Bool,
-		"(reflect.Value).CanAddr":      ext۰reflect۰Value۰CanAddr,
-		"(reflect.Value).CanSet":       ext۰reflect۰Value۰CanAddr,
-		"(reflect.Value).Addr":         ext۰reflect۰Value۰Addr,
-		"(reflect.Value).SetInt":       ext۰reflect۰Value۰SetInt,
-		"(reflect.Value).SetUint":      ext۰reflect۰Value۰SetUint,
-		"(reflect.Value).SetFloat":     ext۰reflect۰Value۰SetFloat,
-		"(reflect.Value).SetBool":      ext۰reflect۰Value۰SetBool,
-		"(reflect.Value).SetString":    ext۰reflect۰Value۰SetString,
-		"(reflect.Value).SetBytes":     ext۰reflect۰Value۰SetBytes,
-		"(reflect.Value).CanInterface": ext۰reflect۰Value۰CanInterface,
-		"(reflect.Value).Elem":         ext۰reflect۰Value۰Elem,
-		"(reflect.Value).Field":        ext۰reflect۰Value۰Field,
-		"(reflect.Value).Float":        ext۰reflect۰Value۰Float,
-		"(reflect.Value).Index":        ext۰reflect۰Value۰Index,
-		"(reflect.Value).Int":          ext۰reflect۰Value۰Int,
-		"(reflect.Value).Interface":    ext۰reflect۰Value۰Interface,
-		"(reflect.Value).IsNil":        ext۰reflect۰Value۰IsNil,
-		"(reflect.Value).IsValid":      ext۰reflect۰Value۰IsValid,
-		"(reflect.Value).Kind":         ext۰reflect۰Value۰Kind,
-		"(reflect.Value).Len":          ext۰reflect۰Value۰Len,
-		"(reflect.Value).MapIndex":     ext۰reflect۰Value۰MapIndex,
-		"(reflect.Value).MapKeys":      ext۰reflect۰Value۰MapKeys,
-		"(reflect.Value).NumField":     ext۰reflect۰Value۰NumField,
-		"(reflect.Value).NumMethod":    ext۰reflect۰Value۰NumMethod,
-		"(reflect.Value).Pointer":      ext۰reflect۰Value۰Pointer,
-		"(reflect.Value).Set":          ext۰reflect۰Value۰Set,
-		"(reflect.Value).String":       ext۰reflect۰Value۰String,
-		"(reflect.Value).Type":         ext۰reflect۰Value۰Type,
-		"(reflect.Value).Uint":         ext۰reflect۰Value۰Uint,
-		"(reflect.error).Error":        ext۰reflect۰error۰Error,
-		"(reflect.rtype).Bits":         ext۰reflect۰rtype۰Bits,
-		"(reflect.rtype).Elem":         ext۰reflect۰rtype۰Elem,
-		"(reflect.rtype).Field":        ext۰reflect۰rtype۰Field,
-		"(reflect.rtype).In":           ext۰reflect۰rtype۰In,
-		"(reflect.rtype).Kind":         ext۰reflect۰rtype۰Kind,
-		"(reflect.rtype).NumField":     ext۰reflect۰rtype۰NumField,
-		"(reflect.rtype).NumIn":        ext۰reflect۰rtype۰NumIn,
-		"(reflect.rtype).NumMethod":    ext۰reflect۰rtype۰NumMethod,
-		"(reflect.rtype).NumOut":       ext۰reflect۰rtype۰NumOut,
-		"(reflect.rtype).Out":          ext۰reflect۰rtype۰Out,
-		"(reflect.rtype).Size":         ext۰reflect۰rtype۰Size,
-		"(reflect.rtype).String":       ext۰reflect۰rtype۰String,
-		"math.Exp":                     ext۰math۰Exp,
-		"math.Float32bits":             ext۰math۰Float32bits,
-		"math.Float32frombits":         ext۰math۰Float32frombits,
-		"math.Float64bits":             ext۰math۰Float64bits,
-		"math.Float64frombits":         ext۰math۰Float64frombits,
-		"math.Log":                     ext۰math۰Log,
-		"math.Sqrt":                    ext۰math۰Sqrt,
-		"os.Exit":                      ext۰os۰Exit,
-		"reflect.New":                  ext۰reflect۰New,
-		"reflect.SliceOf":              ext۰reflect۰SliceOf,
-		"reflect.TypeOf":               ext۰reflect۰TypeOf,
-		"reflect.ValueOf":              ext۰reflect۰ValueOf,
-		"reflect.Zero":                 ext۰reflect۰Zero,
-		"runtime.Breakpoint":           ext۰runtime۰Breakpoint,
-		"runtime.GC":                   ext۰runtime۰GC,
-		"runtime.GOMAXPROCS":           ext۰runtime۰GOMAXPROCS,
-		"runtime.GOROOT":               ext۰runtime۰GOROOT,
-		"runtime.Gosched":              ext۰runtime۰Gosched,
-		"runtime.NumCPU":               ext۰runtime۰NumCPU,
+		"(reflect.Value).Bool":          ext۰reflect۰Value۰Bool,
+		"(reflect.Value).Bytes":         ext۰reflect۰Value۰Bytes,
+		"(reflect.Value).CanAddr":       ext۰reflect۰Value۰CanAddr,
+		"(reflect.Value).CanSet":        ext۰reflect۰Value۰CanAddr,
+		"(reflect.Value).Addr":          ext۰reflect۰Value۰Addr,
+		"(reflect.Value).SetInt":        ext۰reflect۰Value۰SetInt,
+		"(reflect.Value).SetUint":       ext۰reflect۰Value۰SetUint,
+		"(reflect.Value).SetFloat":      ext۰reflect۰Value۰SetFloat,
+		"(reflect.Value).SetBool":       ext۰reflect۰Value۰SetBool,
+		"(reflect.Value).SetString":     ext۰reflect۰Value۰SetString,
+		"(reflect.Value).SetBytes":      ext۰reflect۰Value۰SetBytes,
+		"(reflect.Value).CanInterface":  ext۰reflect۰Value۰CanInterface,
+		"(reflect.Value).Elem":          ext۰reflect۰Value۰Elem,
+		"(reflect.Value).Field":         ext۰reflect۰Value۰Field,
+		"(reflect.Value).Float":         ext۰reflect۰Value۰Float,
+		"(reflect.Value).Index":         ext۰reflect۰Value۰Index,
+		"(reflect.Value).Int":           ext۰reflect۰Value۰Int,
+		"(reflect.Value).Interface":     ext۰reflect۰Value۰Interface,
+		"(reflect.Value).IsNil":         ext۰reflect۰Value۰IsNil,
+		"(reflect.Value).IsValid":       ext۰reflect۰Value۰IsValid,
+		"(reflect.Value).IsZero":        ext۰reflect۰Value۰IsZero,
+		"(reflect.Value).Kind":          ext۰reflect۰Value۰Kind,
+		"(reflect.Value).Len":           ext۰reflect۰Value۰Len,
+		"(reflect.Value).MapIndex":      ext۰reflect۰Value۰MapIndex,
+		"(reflect.Value).MapKeys":       ext۰reflect۰Value۰MapKeys,
+		"(reflect.Value).NumField":      ext۰reflect۰Value۰NumField,
+		"(reflect.Value).NumMethod":     ext۰reflect۰Value۰NumMethod,
+		"(reflect.Value).Pointer":       ext۰reflect۰Value۰Pointer,
+		"(reflect.Value).Set":           ext۰reflect۰Value۰Set,
+		"(reflect.Value).String":        ext۰reflect۰Value۰String,
+		"(reflect.Value).Type":          ext۰reflect۰Value۰Type,
+		"(reflect.Value).Uint":          ext۰reflect۰Value۰Uint,
+		"(reflect.error).Error":         ext۰reflect۰error۰Error,
+		"(reflect.rtype).Bits":          ext۰reflect۰rtype۰Bits,
+		"(reflect.rtype).Elem":          ext۰reflect۰rtype۰Elem,
+		"(reflect.rtype).Field":         ext۰reflect۰rtype۰Field,
+		"(reflect.rtype).In":            ext۰reflect۰rtype۰In,
+		"(reflect.rtype).Kind":          ext۰reflect۰rtype۰Kind,
+		"(reflect.rtype).NumField":      ext۰reflect۰rtype۰NumField,
+		"(reflect.rtype).NumIn":         ext۰reflect۰rtype۰NumIn,
+		"(reflect.rtype).NumMethod":     ext۰reflect۰rtype۰NumMethod,
+		"(reflect.rtype).NumOut":        ext۰reflect۰rtype۰NumOut,
+		"(reflect.rtype).Out":           ext۰reflect۰rtype۰Out,
+		"(reflect.rtype).Size":          ext۰reflect۰rtype۰Size,
+		"(reflect.rtype).Key":           ext۰reflect۰rtype۰Key,
+		"(reflect.rtype).Len":           ext۰reflect۰rtype۰Len,
+		"(reflect.rtype).Name":          ext۰reflect۰rtype۰Name,
+		"(reflect.rtype).PkgPath":       ext۰reflect۰rtype۰PkgPath,
+		"(reflect.rtype).Comparable":    ext۰reflect۰rtype۰Comparable,
+		"(reflect.rtype).AssignableTo":  ext۰reflect۰rtype۰AssignableTo,
+		"(reflect.rtype).ConvertibleTo": ext۰reflect۰rtype۰ConvertibleTo,
+		"(reflect.rtype).Implements":    ext۰reflect۰rtype۰Implements,
+		"reflect.MakeSlice":             ext۰reflect۰MakeSlice,
+		"reflect.MakeMap":               ext۰reflect۰MakeMap,
+		"reflect.MakeMapWithSize":       ext۰reflect۰MakeMap,
+		"reflect.Append":                ext۰reflect۰Append,
+		"(reflect.Value).SetMapIndex":   ext۰reflect۰Value۰SetMapIndex,
+		"(reflect.Value).Slice":         ext۰reflect۰Value۰Slice,
+		"(reflect.Value).MapRange":      ext۰reflect۰Value۰MapRange,
+		"(*reflect.MapIter).Next":       ext۰reflect۰MapIter۰Next,
+		"(*reflect.MapIter).Key":        ext۰reflect۰MapIter۰Key,
+		"(*reflect.MapIter).Value":      ext۰reflect۰MapIter۰Value,
+		"(reflect.rtype).String":        ext۰reflect۰rtype۰String,
+		"math.Exp":                      ext۰math۰Exp,
+		"math.Float32bits":              ext۰math۰Float32bits,
+		"math.Float32frombits":          ext۰math۰Float32frombits,
+		"math.Float64bits":              ext۰math۰Float64bits,
+		"math.Float64frombits":          ext۰math۰Float64frombits,
+		"math.Log":                      ext۰math۰Log,
+		"math.Sqrt":                     ext۰math۰Sqrt,
+		"os.Exit":                       ext۰os۰Exit,
+		"reflect.New":                   ext۰reflect۰New,
+		"reflect.SliceOf":               ext۰reflect۰SliceOf,
+		"reflect.PtrTo":                 ext۰reflect۰PointerTo,
+		"reflect.PointerTo":             ext۰reflect۰PointerTo,
+		"reflect.MapOf":                 ext۰reflect۰MapOf,
+		"reflect.ArrayOf":               ext۰reflect۰ArrayOf,
+		"reflect.TypeOf":                ext۰reflect۰TypeOf,
+		"reflect.ValueOf":               ext۰reflect۰ValueOf,
+		"reflect.Zero":                  ext۰reflect۰Zero,
+		"runtime.Breakpoint":            ext۰runtime۰Breakpoint,
+		"runtime.GC":                    ext۰runtime۰GC,
+		"runtime.GOMAXPROCS":            ext۰runtime۰GOMAXPROCS,
+		"runtime.GOROOT":                ext۰runtime۰GOROOT,
+		"runtime.Gosched":               ext۰runtime۰Gosched,
+		"runtime.NumCPU":                ext۰runtime۰NumCPU,
 	} {
 		externals[k] = v
 	}
